@@ -129,7 +129,7 @@ fn target_strategy(tier: Tier) -> BoxedStrategy<Target> {
     prop_oneof![
         2 => prop_oneof![Just(1usize), Just(10), Just(big)].prop_map(|d| Target::Iso { d }),
         2 => (2usize..=12, 1.0f64..6.0).prop_map(|(d, decades)| Target::Scaled { d, decades }),
-        2 => (2usize..=6).prop_flat_map(|d| (proptest::collection::vec(-2.0f64..2.0, d), spd_strategy(d, 0.03, 30.0))).prop_map(|(mean, prec)| Target::Corr { mean, prec }),
+        3 => prop_oneof![2usize..=6, 7usize..=big.min(24)].prop_flat_map(|d| (proptest::collection::vec(-2.0f64..2.0, d), spd_strategy(d, 0.03, 30.0))).prop_map(|(mean, prec)| Target::Corr { mean, prec }),
         1 => (1usize..=6).prop_map(|d| Target::StudentT { d }),
         1 => (1usize..=6).prop_map(|d| Target::ExpGamma { d }),
     ]
@@ -296,7 +296,7 @@ impl Part for Posterior {
             .boxed()
     }
     fn check(&self, c: &Case) -> Outcome {
-        let n = if std::env::var("VERIF_TIER").ok().as_deref() == Some("thorough") || THOROUGH.load(std::sync::atomic::Ordering::Relaxed) { 10_000 } else { 1000 };
+        let n = if std::env::var("VERIF_TIER").ok().as_deref() == Some("thorough") || THOROUGH.load(std::sync::atomic::Ordering::Relaxed) { 10_000 } else { 2000 };
         check_posterior(c, n, None)
     }
     fn shrink_budget(&self) -> usize {
